@@ -1,7 +1,8 @@
 """Runs DMRG / VUMPS of tenpy on the cases of harness/c13.py (fresh interpreter).  Finite DMRG runs are instrumented from
 outside (env.get_LP/get_RP/set_LP/set_RP/del_LP/del_RP, env._contract_LP/_contract_RP, psi.set_B,
 engine.free_no_longer_needed_envs) to record the schedule, the stored environments after every local update and whether
-every environment that was read had been contracted from the current versions of the sites."""
+every environment that was read had been contracted from the current versions of the sites.  Infinite DMRG runs with
+'trace_inf' are instrumented the same way (InfEnvTracer) for the correspondence with Model/SweepInf.v."""
 import json
 import sys
 import traceback
@@ -176,6 +177,173 @@ class EnvTracer:
         eng.free_no_longer_needed_envs = free
 
 
+class InfEnvTracer:
+    """Instrumentation of an INFINITE DMRG run (iDMRG) from outside, for the correspondence with Model/SweepInf.v.
+    Every stored environment gets a shadow tag: the version numbers of the site tensors it was contracted from, nearest
+    factor first (entry k of the LP stored at key i belongs to site (i-1-k) mod L, of the RP at key i to site (i+1+k) mod L).
+    Recorded per local update (at free_no_longer_needed_envs): the schedule entry, the tags of the FIRST get_LP / get_RP
+    of the step (those read for eff_H), and for every key 0..L-1 of the stored LP / RP the tag as booleans
+    "factor was contracted from the version of the site that is current now" plus the age kept by the environment."""
+
+    def __init__(self, eng):
+        self.eng = eng
+        env, psi = eng.env, eng.psi
+        L = self.L = psi.L
+        self.cap = 2 * L + 2
+        self.ver = [0] * L
+        self.problems = []
+        self.sh_L = {i: () for i in range(L) if env.has_LP(i)}
+        self.sh_R = {i: () for i in range(L) if env.has_RP(i)}
+        self.init = {'LP': sorted(self.sh_L), 'RP': sorted(self.sh_R),
+                     'ages': [[env._LP_age[i] for i in sorted(self.sh_L)], [env._RP_age[i] for i in sorted(self.sh_R)]]}
+        self.ctx = None
+        self.read_L, self.read_R = {}, {}
+        self.first = {}
+        self.steps = []
+        # Sweep.mixer_cleanup (post_run_cleanup) regauges the site tensors and the stored environments consistently (same state, same
+        # contractions): not a new version of a site, the shadow tags stay as they are while it runs
+        self.finished = False
+        o_getL, o_getR, o_setL, o_setR = env.get_LP, env.get_RP, env.set_LP, env.set_RP
+        o_delL, o_delR, o_cL, o_cR = env.del_LP, env.del_RP, env._contract_LP, env._contract_RP
+        o_setB = psi.set_B
+        o_free = eng.free_no_longer_needed_envs
+        o_cleanup = eng.mixer_cleanup
+        o_prepare = eng.prepare_update_local
+        ver = self.ver
+
+        def prepare_update_local():
+            # start of a local update: the first get_LP / get_RP from here on are the ones of make_eff_H
+            self.first = {}
+            self.read_L, self.read_R = {}, {}
+            return o_prepare()
+
+        def mixer_cleanup():
+            self.finished = True
+            try:
+                return o_cleanup()
+            finally:
+                self.finished = False
+
+        def bools_L(i, tag):
+            return None if tag is None else [bool(v == ver[(i - 1 - k) % L]) for k, v in enumerate(tag[:self.cap])]
+
+        def bools_R(i, tag):
+            return None if tag is None else [bool(v == ver[(i + 1 + k) % L]) for k, v in enumerate(tag[:self.cap])]
+
+        def get_LP(i, store=True):
+            if self.finished:
+                return o_getL(i, store)
+            outer = self.ctx
+            self.ctx = {'tag': None, 'side': 'L'}
+            try:
+                res = o_getL(i, store)
+            finally:
+                c = self.ctx
+                self.ctx = outer
+            tag = c['tag'] if c['tag'] is not None else self.sh_L.get(i % L)
+            self.first.setdefault('L', [int(i), bools_L(i, tag)])
+            self.read_L.setdefault(i % L, tag)
+            return res
+
+        def get_RP(i, store=True):
+            if self.finished:
+                return o_getR(i, store)
+            outer = self.ctx
+            self.ctx = {'tag': None, 'side': 'R'}
+            try:
+                res = o_getR(i, store)
+            finally:
+                c = self.ctx
+                self.ctx = outer
+            tag = c['tag'] if c['tag'] is not None else self.sh_R.get(i % L)
+            self.first.setdefault('R', [int(i), bools_R(i, tag)])
+            self.read_R.setdefault(i % L, tag)
+            return res
+
+        def cL(j, LP):
+            c = self.ctx
+            if c is not None and c['side'] == 'L':
+                if c['tag'] is None:
+                    c['tag'] = self.sh_L.get(j % L)
+                    if c['tag'] is None:
+                        self.problems.append('contract_LP(%d) from an untracked LP' % j)
+                        c['tag'] = (-1,)
+                c['tag'] = (ver[j % L],) + tuple(c['tag'])
+            return o_cL(j, LP)
+
+        def cR(j, RP):
+            c = self.ctx
+            if c is not None and c['side'] == 'R':
+                if c['tag'] is None:
+                    c['tag'] = self.sh_R.get(j % L)
+                    if c['tag'] is None:
+                        self.problems.append('contract_RP(%d) from an untracked RP' % j)
+                        c['tag'] = (-1,)
+                c['tag'] = (ver[j % L],) + tuple(c['tag'])
+            return o_cR(j, RP)
+
+        def set_LP(i, LP, age):
+            c = self.ctx
+            if self.finished:
+                pass
+            elif c is not None and c['side'] == 'L' and c['tag'] is not None:
+                self.sh_L[i % L] = c['tag']
+            elif c is None and self.read_L.get((i - 1) % L) is not None:
+                # EffectiveH.update_LP with combine=True: LHeff (built from the LP read for eff_H) contracted with the new site i-1
+                self.sh_L[i % L] = (ver[(i - 1) % L],) + tuple(self.read_L[(i - 1) % L])
+            else:
+                self.problems.append('set_LP(%d) of unknown provenance' % i)
+                self.sh_L[i % L] = (-1,)
+            return o_setL(i, LP, age)
+
+        def set_RP(i, RP, age):
+            c = self.ctx
+            if self.finished:
+                pass
+            elif c is not None and c['side'] == 'R' and c['tag'] is not None:
+                self.sh_R[i % L] = c['tag']
+            elif c is None and self.read_R.get((i + 1) % L) is not None:
+                self.sh_R[i % L] = (ver[(i + 1) % L],) + tuple(self.read_R[(i + 1) % L])
+            else:
+                self.problems.append('set_RP(%d) of unknown provenance' % i)
+                self.sh_R[i % L] = (-1,)
+            return o_setR(i, RP, age)
+
+        def del_LP(i):
+            self.sh_L.pop(i % L, None)
+            return o_delL(i)
+
+        def del_RP(i):
+            self.sh_R.pop(i % L, None)
+            return o_delR(i)
+
+        def set_B(i, B, form='B'):
+            if not self.finished:
+                ver[i % L] += 1
+            return o_setB(i, B, form)
+
+        def free():
+            r = o_free()
+            up = eng.update_LP_RP
+            hasL = [i for i in range(L) if env.has_LP(i)]
+            hasR = [i for i in range(L) if env.has_RP(i)]
+            if sorted(self.sh_L) != hasL or sorted(self.sh_R) != hasR:
+                self.problems.append('shadow keys %s / %s differ from the stored keys %s / %s' % (sorted(self.sh_L), sorted(self.sh_R), hasL, hasR))
+            self.steps.append({'i0': int(eng.i0), 'mr': bool(eng.move_right), 'upl': bool(up[0]), 'upr': bool(up[1]),
+                               'readL': self.first.get('L'), 'readR': self.first.get('R'),
+                               'LP': [None if i not in hasL else [bools_L(i, self.sh_L.get(i, (-1,))), env._LP_age[i]] for i in range(L)],
+                               'RP': [None if i not in hasR else [bools_R(i, self.sh_R.get(i, (-1,))), env._RP_age[i]] for i in range(L)]})
+            self.first = {}
+            self.read_L, self.read_R = {}, {}
+            return r
+        env.get_LP, env.get_RP, env.set_LP, env.set_RP = get_LP, get_RP, set_LP, set_RP
+        env.del_LP, env.del_RP, env._contract_LP, env._contract_RP = del_LP, del_RP, cL, cR
+        psi.set_B = set_B
+        eng.free_no_longer_needed_envs = free
+        eng.mixer_cleanup = mixer_cleanup
+        eng.prepare_update_local = prepare_update_local
+
+
 def run_dmrg(case):
     import tenpy.linalg.np_conserved as npc
     from tenpy.algorithms import dmrg, vumps
@@ -218,7 +386,16 @@ def run_dmrg(case):
         tr = None
         if case['bc'] == 'finite' and case.get('trace', True):
             tr = EnvTracer(eng)
+        itr = None
+        if case['bc'] == 'infinite' and case.get('trace_inf'):
+            # constructed with start_env = 0: the environment is fresh (Model/SweepInf.v init_i); the initial environment
+            # sweeps of Sweep.init_env are run here, after the instrumentation is in place
+            env0 = eng.env
+            itr = InfEnvTracer(eng)
+            eng.environment_sweeps(int(case.get('pre_env_sweeps', 0)))
         E, psi = eng.run()
+        if itr is not None and eng.env is not env0:
+            itr.problems.append('the engine replaced its environment during the run')
     except Exception as e:
         return {'error': type(e).__name__ + ': ' + str(e)[:300], 'tb': traceback.format_exc()[-1500:]}
     out['E'] = float(np.real(E))
@@ -247,6 +424,10 @@ def run_dmrg(case):
     else:
         out['E_bond'] = float(np.mean(np.real(M.bond_energies(psi))))
         out['corr_len_ok'] = True
+    if itr is not None:
+        out['inf_init'] = itr.init
+        out['inf_steps'] = itr.steps
+        out['trace_problems'] = itr.problems[:5]
     if tr is not None:
         out['qt0'] = qt0
         out['mods'] = [int(m) for m in psi.chinfo.mod]
